@@ -15,7 +15,11 @@ RULE = ("Triples (macro, args, premise sequents) harvested from the recorded pro
         "replayed in its own theory context and every step of the final proof whose rule is a registered macro yields a "
         "triple; then mutated triples (premises permuted / dropped / duplicated / weakened by an extra hypothesis / "
         "replaced by another line's sequent; theorem-name arguments replaced; term arguments replaced by another "
-        "line's statement). Oracle (differential, both paths are the repo's own): ev = macro.eval(args, premises); "
+        "line's statement); generated goals for the nat macros (nat_norm, nat_const_*) also at foreign numeric types; "
+        "generated apply_theorem_for calls on every theorem of theory nat with a function-typed schematic variable, with "
+        "instantiations drawn from a lambda-term grammar with redexes (one third directed: type variables at function "
+        "types, predicates that apply their argument, arguments that are redexes contracting to an abstraction). "
+        "Oracle (differential, both paths are the repo's own): ev = macro.eval(args, premises); "
         "expansion = macro.expand(...) checked by theory.check_proof at the default trust level inside a proof whose "
         "first lines are placeholders stating the premises. The statement quantifies over inputs for which the expansion "
         "IS produced: violations are: eval returns, macro.expand returns a proof, and the checker refuses that proof; or "
@@ -160,6 +164,49 @@ def run_gen_case(case, H):
     compare(case, rule, theory.get_macro(rule), goal, [], ['generated:' + case.get('klass', '?')], H)
 
 
+_INST = {}
+
+
+def inst_pool():
+    """Theorems of theory nat with a function-typed schematic variable: name -> ([(svar, jtype)], [type variables])."""
+    if 'pool' not in _INST:
+        from kernel import theory
+        from vlib import codec, libsig
+        sig = libsig.sig_for('nat')
+        theory.thy = sig['theory']
+        pool = {}
+        for name in sorted(theory.thy.get_data('theorems')):
+            try:
+                th = theory.get_theorem(name)
+            except Exception:
+                continue
+            svars = th.prop.get_svars()
+            if not svars or len(svars) > 4 or not any(v.T.is_fun() for v in svars) or th.prop.size() > 60:
+                continue
+            pool[name] = ([(v.name, codec.type_enc(v.T)) for v in svars], sorted(tv.name for tv in th.prop.get_stvars()))
+        _INST['pool'] = pool
+    return _INST['pool']
+
+
+def run_inst_case(case, H):
+    """apply_theorem_for on a theorem with higher-order schematic variables and generated instantiations (lambda
+    terms with redexes, function-typed instances of the type variables)."""
+    from kernel import theory
+    from kernel.term import Inst
+    from vlib import codec, libsig
+    sig = libsig.sig_for('nat')
+    theory.thy = sig['theory']
+    name = case.get('theorem')
+    if name not in inst_pool() or not isinstance(case.get('inst'), dict):
+        raise CaseInvalid('theorem')
+    inst = Inst()
+    for k, j in sorted(case['inst'].items()):
+        if not ref.well_typed(ref.from_jterm(j)):
+            raise CaseInvalid('instantiation ill-typed')
+        inst[k] = codec.term_dec(j)
+    compare(case, 'apply_theorem_for', theory.get_macro('apply_theorem_for'), (name, inst), [], ['generated:instantiation'], H)
+
+
 def run_case(case, H):
     from kernel import theory
     from kernel.proof import Proof, ProofItem, ItemID
@@ -170,6 +217,8 @@ def run_case(case, H):
         raise CaseInvalid('case')
     if case.get('kind') == 'gen':
         return run_gen_case(case, H)
+    if case.get('kind') == 'gen-inst':
+        return run_inst_case(case, H)
     try:
         with time_limit(90):
             item, state = final_state(case['theory'], case['thm'])
@@ -365,14 +414,61 @@ def gen_strategy():
     return cases()
 
 
+def inst_strategy():
+    from hypothesis import strategies as st
+    from vlib import gen
+    from vlib.codec import fun, BOOL, jt_subst
+    NAT = ["tc", "nat"]
+    pool = inst_pool()
+    sigc = list(gen.LOGIC_BASE) + [("zero", NAT), ("Suc", fun(NAT, NAT)), ("plus", fun(NAT, NAT, NAT))]
+    opts = gen.Opts(sig=sigc, redex=True, atom_types=[NAT, BOOL], names=['x', 'y', 'f', 'g', 'm'], max_order=2)
+
+    @st.composite
+    def cases(draw):
+        name = draw(st.sampled_from(sorted(pool)))
+        svars, tvs = pool[name]
+        sigma = {('stv', tv): draw(st.sampled_from([NAT, NAT, BOOL, fun(NAT, NAT), fun(NAT, BOOL)])) for tv in tvs}
+        inst = {}
+        directed = draw(st.integers(0, 2)) == 0
+        if directed:
+            # function-typed instances; predicates that APPLY their argument; arguments that are redexes whose
+            # contractum is an abstraction (normalisation has to go on after the first contraction)
+            sigma = {k: draw(st.sampled_from([fun(NAT, NAT), fun(NAT, BOOL)])) for k in sigma}
+        for v, T in svars:
+            Tv = jt_subst(T, sigma)
+            if directed and Tv[0] == 'tc' and Tv[1] == 'fun' and Tv[2][:2] == ['tc', 'fun']:
+                F, R = Tv[2], Tv[3]
+                use = ["app", ["b", 0], draw(gen.terms(opts, F[2], (F,), 1))]          # f t
+                if F[3] == R:
+                    body = use
+                elif R == BOOL:
+                    body = ["app", ["app", ["c", "equals", fun(F[3], F[3], BOOL)], use], draw(gen.terms(opts, F[3], (F,), 1))]
+                else:
+                    body = draw(gen.terms(opts, R, (F,), 2))
+                inst[v] = ["abs", "f", F, body]
+            elif directed and Tv[:2] == ['tc', 'fun']:
+                lam = ["abs", "y", Tv[2], draw(gen.terms(opts, Tv[3], (Tv[2],), 1))]
+                inst[v] = draw(st.sampled_from([
+                    ["app", ["abs", "g", Tv, ["b", 0]], lam],                                   # (%g. g) (%y. t)
+                    ["app", ["abs", "d", NAT, ["abs", "y", Tv[2], draw(gen.terms(opts, Tv[3], (Tv[2], NAT), 1))]],
+                     draw(gen.terms(opts, NAT, (), 1))],                                         # (%d y. t) e
+                    lam]))
+            elif draw(st.integers(0, 4)) > 0:
+                inst[v] = draw(gen.terms(opts, Tv, (), draw(st.integers(1, 3))))
+        return {'kind': 'gen-inst', 'theorem': name, 'inst': inst, 'directed': directed}
+    return cases()
+
+
 def shards(tier):
     if tier == 'quick':
         return [{'kind': 'harvest', 'part': i, 'parts': 16, 'stride': 4} for i in range(16)] + \
                [{'kind': 'mut', 'n': c, 'i': i} for i, c in enumerate(harness.split(900, 16))] + \
-               [{'kind': 'gen', 'n': c, 'i': i} for i, c in enumerate(harness.split(1200, 4))]
+               [{'kind': 'gen', 'n': c, 'i': i} for i, c in enumerate(harness.split(1200, 4))] + \
+               [{'kind': 'gen-inst', 'n': c, 'i': i} for i, c in enumerate(harness.split(1600, 8))]
     return [{'kind': 'harvest', 'part': i, 'parts': 48, 'stride': 1} for i in range(48)] + \
            [{'kind': 'mut', 'n': c, 'i': i} for i, c in enumerate(harness.split(40000, 48))] + \
-           [{'kind': 'gen', 'n': c, 'i': i} for i, c in enumerate(harness.split(40000, 16))]
+           [{'kind': 'gen', 'n': c, 'i': i} for i, c in enumerate(harness.split(40000, 16))] + \
+           [{'kind': 'gen-inst', 'n': c, 'i': i} for i, c in enumerate(harness.split(40000, 16))]
 
 
 def run_shard(desc, seed, tier, H):
@@ -394,4 +490,5 @@ def run_shard(desc, seed, tier, H):
             run_case(case, H)
         except CaseInvalid:
             H.note('case-invalid')
-    harness.hyp_run(gen_strategy() if desc['kind'] == 'gen' else case_strategy(corpus), body, desc['n'], seed)
+    strat = gen_strategy() if desc['kind'] == 'gen' else inst_strategy() if desc['kind'] == 'gen-inst' else case_strategy(corpus)
+    harness.hyp_run(strat, body, desc['n'], seed)
